@@ -245,6 +245,7 @@ Definition add_contract (s : state) (id : cid) (c : contract) : state :=
 Definition create (s : state) (m : create_msg) : option state :=
   if negb (create_basic m) then None
   else if blocked (m_to m) then None
+  else if m_to m =? ESC then None       (* the module's own account cannot be the recipient (msgServer.CreateHTLC) *)
   else
     let id := id_of m in
     if has id (st_contracts s) then None
@@ -384,17 +385,43 @@ Definition begin_block (s : state) (dt : Z) : state :=
   let h := st_height s0 in
   update_windows (fold_left (refund_one h) (due h (st_queue s0)) s0).
 
+(** ** Parameter changes (keeper/msg_server.go UpdateParams, keeper/params.go SetParams,
+    types/params.go validateAssetParams).  [GOV] = the authority (the gov module account).  SetParams
+    validates and stores the new set; nothing else is touched (the supply record of a new asset is
+    created by the next begin blocker, see [tick_asset]).  Denoms are numbers here: the harness only
+    generates well-formed "htlt..." names, so the denom-syntax test is not modelled. *)
+Definition GOV : acct := 102.
+Definition two256 : Z := 2 ^ 256.
+
+Definition param_valid (p : aparam) : bool :=
+  (0 <=? ap_limit p) && (0 <=? ap_tbl p) && (ap_tbl p <=? ap_limit p)
+  && addr_ok (ap_deputy p) && (0 <=? ap_fee p)
+  && (MinTimeLock <=? ap_minlock p) && (ap_maxlock p <=? MaxTimeLock) && (ap_minlock p <=? ap_maxlock p)
+  && (0 <? ap_min p) && (0 <? ap_max p) && (ap_min p <=? ap_max p)
+  && (ap_fee p + ap_min p <? two256).
+
+Fixpoint nodupb (l : list Z) : bool :=
+  match l with [] => true | x :: l' => negb (existsb (Z.eqb x) l') && nodupb l' end.
+
+Definition params_valid (P : list aparam) : bool := forallb param_valid P && nodupb (map ap_denom P).
+
+Definition set_params (s : state) (P' : list aparam) : state :=
+  mkSt P' (st_contracts s) (st_queue s) (st_bank s) (st_supply s) (st_assets s) (st_prev s)
+       (st_height s) (st_time s) (st_log s) (st_win s).
+
 (** ** Histories *)
 Inductive op :=
 | Create (m : create_msg)
 | Claim (who : Z) (id : cid) (secret : Z)
-| Adv (dts : list Z).                 (* block boundaries, each with its time step *)
+| Adv (dts : list Z)                  (* block boundaries, each with its time step *)
+| SetParams (who : Z) (P' : list aparam).   (* MsgUpdateParams signed by [who] *)
 
 Definition exec (s : state) (o : op) : option state :=
   match o with
   | Create m => create s m
   | Claim who id secret => claim s who id secret
   | Adv dts => Some (fold_left begin_block dts s)
+  | SetParams who P' => if (who =? GOV) && params_valid P' then Some (set_params s P') else None
   end.
 
 (** a message is a transaction: on error nothing is written *)
